@@ -459,3 +459,30 @@ Proof. intros H. rewrite !sibling_elements_app, (sibling_elements_junk junk H). 
 
 Lemma css_facts_lock : css_facts = [CF_ParentElement; CF_PrevSiblingElement; CF_FirstChildViaPrevSibling; CF_AttrMatchNoNamespace].
 Proof. reflexivity. Qed.
+
+(* ------------------------------------------------------------------ systemLanguage: the `-` boundary *)
+(* an entry matches only a user language it equals, or one that equals its part before the first `-` *)
+Theorem syslang_boundary users e :
+  (forall u, In u users -> u <> e) -> (forall u, In u users -> before_dash e <> Some u) -> entry_matches users e = false.
+Proof.
+  intros H1 H2. unfold entry_matches. cbn [existsb sys_lang_rules]. rewrite !orb_false_r.
+  apply orb_false_iff. split.
+  - induction users as [|u r IH]; [reflexivity|]. cbn [existsb eval_lang_rule].
+    apply orb_false_iff. split.
+    + apply String.eqb_neq. apply H1. left. reflexivity.
+    + apply IH; intros; [apply H1 | apply H2]; right; assumption.
+  - induction users as [|u r IH]; [reflexivity|]. cbn [existsb eval_lang_rule].
+    apply orb_false_iff. split.
+    + destruct (before_dash e) as [p|] eqn:E; [|reflexivity]. apply String.eqb_neq. intros Hu. subst p.
+      apply (H2 u (or_introl eq_refl)). reflexivity.
+    + apply IH; intros; [apply H1 | apply H2]; right; assumption.
+Qed.
+
+Theorem syslang_all_fail users entries :
+  (forall e, In e entries -> (forall u, In u users -> u <> e) /\ (forall u, In u users -> before_dash e <> Some u)) ->
+  sys_lang_ok users entries = false.
+Proof.
+  intros H. unfold sys_lang_ok. induction entries as [|e r IH]; [reflexivity|]. cbn [existsb].
+  destruct (H e (or_introl eq_refl)) as [A B]. rewrite (syslang_boundary users e A B). cbn. apply IH.
+  intros e' He'. apply H. right. exact He'.
+Qed.
